@@ -119,7 +119,7 @@ def run(ctx, replay_case):
                         if p[0] == "M" and p[4] != "..." and p[3] in L["prims"]:
                             invalid = not G.is_valid(p[3], int(p[4]))
                             nxt = evs[i + 1] if i + 1 < len(evs) else ""
-                            warned = nxt.startswith("W ") and f"path={p[2]} " in nxt and nxt.endswith(f"value={p[4]}")
+                            warned = nxt.startswith("W ") and f"path={p[2]} " in nxt and f" value={p[4]} " in nxt + " "
                             if invalid != warned:
                                 v = f"value-only run: field {p[2]}={p[4]} ({p[3]}) is {'out of range' if invalid else 'valid'} but is {'' if warned else 'not '}followed by its warning"
                                 sig = "value-only"
